@@ -384,6 +384,10 @@ Definition with_method {R : Type} (id : mid) (k : forall St, method srcs St N ->
 Definition call_by_id (id : mid) (compressed : bool) (s : srcs) (dep : N) (mf cap : nat) (v : vecN)
   : vecN * res eerr unit :=
   with_method id (fun St m => compute_call m compressed s dep mf cap v).
+Definition call_by_id_fail (id : mid) (fail : option nat) (compressed : bool) (s : srcs) (dep : N) (mf cap : nat) (v : vecN)
+  : vecN * res eerr unit :=
+  with_method id (fun St m => compute_call (with_fail fail m) compressed s dep mf cap v).
+Definition vec_hand_push (v : vecN) (os : list N) : vecN := hand_push v os.
 Definition scratch_by_id (id : mid) (s : srcs) : res eerr (list N) :=
   with_method id (fun St m => scratch m s).
 Definition target_by_id (id : mid) (s : srcs) : nat := with_method id (fun St m => target m s).
